@@ -164,9 +164,34 @@ func wideStart() *genetics.Genome {
 	return genetics.NewGenome(1, []*neat.Trait{tr}, nodes, genes)
 }
 
+// noTraitStart is the XOR topology with nodes and genes that carry NO trait (nil pointers); the genome still owns one
+// trait, as the mutators require.
+func noTraitStart() *genetics.Genome {
+	tr := neat.NewTrait()
+	tr.Id = 1
+	tr.Params[0] = 0.5
+	mk := func(id int, t network.NodeNeuronType) *network.NNode {
+		n := network.NewNNode(id, t)
+		if t != network.OutputNeuron {
+			n.ActivationType = neatmath.NullActivation
+		}
+		return n
+	}
+	n1, n2, n3, n4 := mk(1, network.BiasNeuron), mk(2, network.InputNeuron), mk(3, network.InputNeuron), mk(4, network.OutputNeuron)
+	genes := []*genetics.Gene{
+		genetics.NewGene(0.25, n1, n4, false, 1, 0.25),
+		genetics.NewGene(-0.5, n2, n4, false, 2, -0.5),
+		genetics.NewGene(0.75, n3, n4, false, 3, 0.75),
+	}
+	return genetics.NewGenome(1, []*neat.Trait{tr}, []*network.NNode{n1, n2, n3, n4}, genes)
+}
+
 func (l *lineage) startGenome(kind int) (*genetics.Genome, string) {
 	if kind == -1 {
 		return wideStart(), "wide"
+	}
+	if kind == -2 {
+		return noTraitStart(), "notrait"
 	}
 	if kind%4 == 3 {
 		return outFirstStart(), "outfirst"
